@@ -8,7 +8,7 @@ PID = "C18"
 def check(tier):
     rep = Reporter(PID, tier)
     pvh = build_harness()
-    filtercommon.filter_replay(rep, pvh, ["slice", "pad", "trunc", "seq", "num", "widthratio", "float", "fmt", "strnum"])
+    filtercommon.filter_replay(rep, pvh, ["slice", "pad", "trunc", "seq", "num", "widthratio", "float", "fmt", "strnum", "words"])
     rep.assumptions += ["numbers with a fractional part are modelled as thousandths; floatformat inputs that are an exact decimal tie but not exact in "
                         "binary (1.005 at two places) have no settled rounding and are not generated; exact ties (multiples of 1/8) round to even, "
                         "as strconv does (Django rounds half up: pongo2's own behaviour is the reference here)",
